@@ -25,7 +25,7 @@ BUDGET_S = {"quick": 150, "thorough": 1500}
 
 # generator features switched off by known findings (see KNOWN_FINDINGS.txt)
 FEATURE_PROFILE = {
-    "no_zero_trip": {"zero_trip": False},
+    "alias_arrays": {"alias_arrays": False},
 }
 
 
